@@ -60,6 +60,20 @@ _m('swap', 'pair', 'pair')(lambda p: (p[1], p[0]))
 _m('fst', 'pair', 'int')(lambda p: p[0])
 _m('dup3', 'int', 'list')(lambda v: [v] * (v % 3))
 _m('lst2', 'int', 'list')(lambda v: [v, v + 1])
+def _l_pop(l):
+    # consumes the list it was handed: drops its first element in place (a header), returns the same object
+    if len(l) > 1:
+        del l[0]
+    return l
+
+
+def _l_trailer(l):
+    l.append(-7)
+    return l
+
+
+_m('l_pop', 'ownlist', 'list')(_l_pop)
+_m('l_trailer', 'ownlist', 'list')(_l_trailer)
 _m('lsum', 'list', 'int')(lambda l: sum(l))
 _m('llen', 'list', 'int')(lambda l: len(l))
 _m('none_odd', 'int', 'optint')(lambda v: None if v % 2 else v)
@@ -129,6 +143,10 @@ _k('rv_npf', 'rec')(lambda r: _np.float64((r.v % 3) / 2))
 _k('rv_nan', 'rec_nan')(lambda r: _math.nan if r.v % 3 == 0 else r.v % 3)          # the one shared nan object
 _k('rv_nan_fresh', 'rec_nan')(lambda r: float('nan') if r.v % 2 == 0 else 1.0)     # a new nan object every time
 _k('rv_nanfresh_none', 'rec')(lambda r: float('nan') if r.v % 3 == 0 else (None if r.v % 3 == 1 else 1.0))   # a new nan object each time: its own group under ==
+_k('rv_hashcol', 'rec')(lambda r: [-1, -2, 0, '', 2305843009213693951, (0, -1), (0, -2)][r.v % 7])   # different keys, equal hashes
+# an impure key mapper (round-robin sharding: the answer does not depend on the item).  The builder creates a fresh
+# counter per pipeline and records every answer; the partition model uses the recorded answers (one call per item)
+_k('rr3', 'rec_impure')(lambda r: 0)
 _k('rn_div3', 'rec')(lambda r: 'run-%d' % (r.n // 3))
 _k('pk0', 'pair')(lambda p: p[0] % 3)
 _k('fk', 'float')(lambda v: int(max(-1e15, min(1e15, v))) % 3)
@@ -192,6 +210,7 @@ ACCS = {
     'cnt': (lambda a, i: a + 1, 'any', 'int', False),
     'addf': (lambda a, i: a + i, 'float', 'float', False),
     'addif': (lambda a, i: a + float(i), 'int', 'float', False),
+    'fprod': (lambda a, i: max(-1e12, min(1e12, a * float((i % 7) - 3))), 'int', 'float', False),     # passes through 0.0 and -0.0
     'xor_even': (lambda a, i: a != (i % 2 == 0), 'int', 'bool', False),
     'append': (_append, 'any', 'list', True),
     'append_pure': (lambda a, i: a + [i], 'any', 'list', False),
@@ -216,6 +235,8 @@ SEEDS = {
     'i0': (lambda: 0, 'int', False),
     'i7': (lambda: 7, 'int', False),
     'f0': (lambda: 0.0, 'float', False),
+    'f1': (lambda: 1.0, 'float', False),
+    'fm0': (lambda: -0.0, 'float', False),
     'bF': (lambda: False, 'bool', False),
     'l_val': (lambda: [], 'list', False),          # value seed (a fresh [] per pipeline build)
     'l_fac': (lambda: list, 'list', True),         # factory seed
@@ -332,6 +353,10 @@ def star_rec(fn):
     def star(k, n, v, t, c):
         return fn(Rec(k, n, v, t, c))
     return star
+
+
+def error_same(e):
+    return e
 
 
 def error_to_rec(e):
